@@ -332,6 +332,10 @@ def _reach_without(cfg, nid, g, pol):
 
 _O = "flumine/order/order.py"
 MUTANTS = [
+    dict(id="c03-betdaq-sequence-read-after-store", file="flumine/order/process.py", func="process_betdaq_current_order",
+         old="    old_sequence_number = order.current_order.get(\"sequence_number\")\n    # update\n    order.update_current_order(current_order)\n",
+         new="    # update\n    order.update_current_order(current_order)\n    old_sequence_number = order.current_order.get(\"sequence_number\")\n",
+         expect=["R2b"], why="old and new sequence number always equal: an updated Betdaq order never leaves UPDATING"),
     dict(id="c03-drop-status-guard-betdaq-cancel", file=_O, func="BetdaqOrder.cancel",
          old="            if self.status != OrderStatus.EXECUTABLE:\n                raise OrderUpdateError(\"Current status: %s\" % self.status)\n",
          new="", expect=["R1", "R2"], why="cancel accepted while another request is in flight"),
